@@ -13,7 +13,7 @@ from vf.core import Result, lib
 ID = "C19"
 TITLE = "Fluid facade and PVT-table builder reproduce the underlying correlations"
 LEVEL = "exploration"
-BUDGET = {"quick": 1600, "thorough": 400000}
+BUDGET = {"quick": 3200, "thorough": 400000}
 SHRINK = {"quick": True, "thorough": True}
 RULE = (
     "Three case kinds. 'fluid': a Fluid with generated temperature, API, gas gravity, GOR, salinity (all non-zero and "
